@@ -195,30 +195,6 @@ def revTok (r : Option RV × List Str) : String :=
 def revCanonTok (r : Option RV × List Str) : String :=
   (match r.1 with | some v => rvTok (rvCanon v) | none => "U") ++ "|" ++ logTok (r.2.foldr insStr [])
 
-def lenRM : RMs' → Nat
-  | .nil => 0
-  | .cons _ _ t => 1 + lenRM t
-
-mutual
-/-- region parse_reviver_live_order: during the ES5 walk some object with three or more properties
-    has a property for which the reviver returns undefined -/
-partial def delRegion (f : Reviver) (name : Str) : RV → Option RV × Bool
-  | .arr l => let r := delRegionL f 0 l; (f name (.arr r.1), r.2)
-  | .obj m =>
-    let kids := (rmsToList m).map fun p => (p.1, delRegion f p.1 p.2)
-    let anyDel := kids.any fun p => p.2.1.isNone
-    let inner := kids.any fun p => p.2.2
-    let m' := rmsOfList (kids.filterMap fun p => p.2.1.map fun x => (p.1, x))
-    (f name (.obj m'), inner || (decide (kids.length ≥ 3) && anyDel))
-  | v => (f name v, false)
-partial def delRegionL (f : Reviver) (i : Nat) : RVs → RVs × Bool
-  | .nil => (.nil, false)
-  | .cons v t =>
-    let r := delRegion f (decimalNat i) v
-    let rest := delRegionL f (i + 1) t
-    (.cons (match r.1 with | some x => x | none => .undef) rest.1, r.2 || rest.2)
-end
-
 mutual
 /-- `decode` (C11/Model) with the properties left in insertion order: the tree the reviver walk starts
     from, before the (unknown) map order is applied by `rvRotate` -/
@@ -260,8 +236,7 @@ def handleRevive (text : Str) (f : Reviver) : String :=
     let base := rvOf v
     let specR := Spec.revive f fuel [] base
     let dev : List String :=
-      (if unordered v then ["parse_key_order"] else []) ++ parseDevs text ++
-      (if (delRegion f [] base).2 then ["parse_reviver_live_order"] else [])
+      (if unordered v then ["parse_key_order"] else []) ++ parseDevs text
     reply modelTok ("det:" ++ revTok specR) (joinDev dev)
 
 /-! ### JSON.stringify -/
